@@ -383,6 +383,17 @@ class ClassFacts:
                     if a is not None and derives(n.value):
                         res.add(a)
             elif isinstance(n, ast.Call):
+                # self.register_buffer("name", value) / setattr(self, "name", value)
+                if (
+                    isinstance(n.func, ast.Attribute)
+                    and n.func.attr in ("register_buffer", "register_parameter", "add_module")
+                    and is_self_attr(n.func) is not None
+                    and len(n.args) >= 2
+                    and isinstance(n.args[0], ast.Constant)
+                    and isinstance(n.args[0].value, str)
+                    and derives(n.args[1])
+                ):
+                    res.add(n.args[0].value)
                 # super().__init__(...)
                 if (
                     isinstance(n.func, ast.Attribute)
@@ -401,4 +412,52 @@ class ClassFacts:
                     for pn, arg in binding.items():
                         if derives(arg):
                             res |= self.init_param_storage(c, pn.lstrip("*"), f.cls, _depth + 1)
+        return res
+
+
+    # ---------------------------------------------------------------- reachable self reads
+    def reachable_self_reads(self, c: ClassInfo, method: str, _seen: set[str] | None = None) -> set[str]:
+        """``self`` attributes (storage level) read on some path from ``self.<method>``,
+        following ``self.m()`` calls, properties and ``cls.m`` / ``Class.m`` helper calls."""
+        seen = _seen if _seen is not None else set()
+        if method in seen:
+            return set()
+        seen.add(method)
+        f = self.repo.lookup(c, method)
+        if f is None:
+            return {method}
+        res: set[str] = set()
+        firstarg = f.node.args.args[0].arg if f.node.args.args else "self"
+        for n in walk_no_nested(f.node):
+            if isinstance(n, ast.Attribute) and isinstance(n.value, ast.Name) and n.value.id in (firstarg, "self", "cls"):
+                target = self.repo.lookup(c, n.attr)
+                if target is not None:
+                    res |= self.reachable_self_reads(c, n.attr, seen)
+                else:
+                    res.add(n.attr)
+            elif isinstance(n, ast.Attribute) and isinstance(n.value, ast.Name) and n.value.id == c.name:
+                if self.repo.lookup(c, n.attr) is not None:
+                    res |= self.reachable_self_reads(c, n.attr, seen)
+            elif (
+                isinstance(n, ast.Attribute)
+                and isinstance(n.value, ast.Call)
+                and isinstance(n.value.func, ast.Name)
+                and n.value.func.id == "super"
+            ):
+                assert f.cls is not None
+                pf = self.repo.lookup_after(c, f.cls, n.attr)
+                if pf is not None:
+                    # analyse the parent's implementation in the context of c
+                    sub = ClassFacts(self.repo)
+                    res |= self._reads_of_func(c, pf, seen)
+        return res
+
+    def _reads_of_func(self, c: ClassInfo, f: FuncInfo, seen: set[str]) -> set[str]:
+        res: set[str] = set()
+        for n in walk_no_nested(f.node):
+            if isinstance(n, ast.Attribute) and isinstance(n.value, ast.Name) and n.value.id in ("self", "cls"):
+                if self.repo.lookup(c, n.attr) is not None:
+                    res |= self.reachable_self_reads(c, n.attr, seen)
+                else:
+                    res.add(n.attr)
         return res
